@@ -453,7 +453,7 @@ pub fn transition<K: Kind>(
                 }
             }
             if star && which.c17 {
-                rrtstar_transition(ks, case, p_radius, t0, t1, cands.iter().map(|c| c.0).collect(), vlog, pos, ctx);
+                rrtstar_transition(ks, case, world, trace.lvs, p_radius, t0, t1, cands.iter().map(|c| c.0).collect(), vlog, pos, ctx);
             }
         }
         (PlannerTag::RRTConnect, Snap::Two(s0, g0), Snap::Two(s1, g1)) => {
@@ -563,6 +563,8 @@ pub fn transition<K: Kind>(
 fn rrtstar_transition<K: Kind>(
     ks: &KSpace<K>,
     _case: &PlanCase,
+    world: &crate::world::World,
+    lvs: f64,
     radius: f64,
     t0: &[NodeF],
     t1: &[NodeF],
@@ -650,6 +652,26 @@ fn rrtstar_transition<K: Kind>(
         ctx.label("rrtstar:chose-non-nearest-parent");
         ctx.nontrivial = true;
     }
+    // "reachable by a valid motion" / "cheaper through the new node by a valid motion": a link
+    // made by choose-parent or by rewiring must not cross an invalid stretch of the resolution's
+    // length or more (dense re-check of the pure world, as oracle B of C03)
+    let through_invalid = |a: &[f64], b: &[f64]| -> Option<f64> {
+        let d = ks.d(a, b);
+        let run = oracle_b(ks, world, a, b, lvs);
+        if lvs > 0.0 && run >= lvs + seg_tol(&ks.cfg, d) {
+            Some(run)
+        } else {
+            None
+        }
+    };
+    if !nearest.contains(&parent) {
+        if let Some(run) = through_invalid(&t0[parent].s, &new.s) {
+            ctx.fail(
+                "C17:linked-through-invalid-motion",
+                format!("choose-parent linked the new node to {parent} across an invalid stretch of length >= {run:e} (L = {lvs:e})"),
+            );
+        }
+    }
     // (c) rewiring
     let mut rewired = 0;
     for j in 0..n {
@@ -679,6 +701,12 @@ fn rrtstar_transition<K: Kind>(
             }
             if !(c < b.cost) {
                 ctx.fail("C17:rewired-without-improvement", format!("node {j} rewired although {c:e} is not below its cost {:e}", b.cost));
+            }
+            if let Some(run) = through_invalid(&new.s, &b.s) {
+                ctx.fail(
+                    "C17:rewired-through-invalid-motion",
+                    format!("node {j} was re-parented to the new node across an invalid stretch of length >= {run:e} (L = {lvs:e})"),
+                );
             }
         } else if !unchanged {
             ctx.fail("C17:neighbour-changed-but-not-rewired-to-new", format!("node {j}: parent {:?} -> {:?}, cost {:e} -> {:e}", b.parent, a.parent, b.cost, a.cost));
